@@ -1039,3 +1039,10 @@ Proof.
   { destruct H as [<-|[<-|[<-|[<-|[]]]]]; vm_compute; reflexivity. }
   rewrite M. split; reflexivity.
 Qed.
+
+(* ------------------------------------------------------------------ *)
+(* 12. Failures are routed to the environment that owns the task       *)
+(* ------------------------------------------------------------------ *)
+
+Lemma routed_by_owner_in_source : routed_by_owner = true.
+Proof. vm_compute. reflexivity. Qed.
